@@ -12,10 +12,15 @@ def take : TakeFacts :=
   { guardsInvalid := true, guardsElem := true, returnsGenericErr := true }
 
 def validate : ValidateFacts :=
-  { rejectsTrailingSegment := true, checkerPerMapping := true, streamCheckerKeepsChunkType := true }
+  { rejectsTrailingSegment := true, checkerPerMapping := true, streamCheckerKeepsChunkType := true,
+    ifaceCheckerGuardsNil := true }
 
 def validateAsFound : ValidateFacts :=
-  { rejectsTrailingSegment := false, checkerPerMapping := false, streamCheckerKeepsChunkType := false }
+  { rejectsTrailingSegment := false, checkerPerMapping := false, streamCheckerKeepsChunkType := false,
+    ifaceCheckerGuardsNil := false }
+
+/-- the tree with every earlier repair, the interface-path checker still without its nil guard -/
+def validateNoNilGuard : ValidateFacts := { validate with ifaceCheckerGuardsNil := false }
 
 /-- the values found on the tree before the fixes (used for the negation witnesses) -/
 def trieAsFound : TrieFacts :=
